@@ -148,6 +148,9 @@ func (e *Engine) bind(ld *Loaded) error {
 			for _, cl := range c.Requires {
 				bindCl(cl)
 			}
+			for _, cl := range c.Assumes {
+				bindCl(cl)
+			}
 			for _, cl := range c.Ensures {
 				bindCl(cl)
 			}
